@@ -13,11 +13,16 @@ use crate::{
 use super::c05::IMPLS;
 
 fn ver_frame(compressed: bool, reqi: u8, insimver: u8) -> Vec<u8> {
+    ver_frame_spare(compressed, reqi, insimver, 0)
+}
+
+/// `spare` is the unused last byte of IS_VER (LFS sends 0; nothing may depend on it).
+fn ver_frame_spare(compressed: bool, reqi: u8, insimver: u8, spare: u8) -> Vec<u8> {
     let mut f = vec![if compressed { 5 } else { 20 }, 2, reqi, 0];
     f.extend_from_slice(b"0.7F\0\0\0\0");
     f.extend_from_slice(b"S3\0\0\0\0");
     f.push(insimver);
-    f.push(0);
+    f.push(spare);
     f
 }
 
@@ -43,20 +48,28 @@ pub fn run(ctx: &mut Ctx) -> (&'static str, String, bool) {
                 let o = GenOpts { text: TextMode::Ascii, max_list: None, boundary: 0, hostile: false };
                 c.ref_frame(&mut r, lay, &o, compressed).map(|x| x.1).unwrap_or_else(|| ping.clone())
             };
-            for pos in 0..3usize {
+            for (pos, spare) in [(0usize, 0u8), (1, 0), (2, 0), (1, 1), (0, 0xff), (2, 9)] {
                 let mut frames = vec![ping.clone(), sta.clone()];
-                frames.insert(pos, ver_frame(compressed, 1, v));
+                frames.insert(pos, ver_frame_spare(compressed, 1, v, spare));
                 let stream: Vec<u8> = frames.concat();
                 for verify in [true, false] {
                     for which in IMPLS {
                         for seg in [0usize, 1, 7] {
                             p.evaluations += 1;
-                            p.distinct(&(v, compressed, pos, verify, which.name(), seg));
-                            let case = ReadCase { compressed, stream: stream.clone(), read_plan: vec![], default_read: seg, write_plan: vec![], verify_version: verify, flush: 0, label: format!("ver{v}-pos{pos}-verify{verify}-seg{seg}") };
+                            p.distinct(&(v, compressed, pos, spare, verify, which.name(), seg));
+                            let case = ReadCase { compressed, stream: stream.clone(), read_plan: vec![], default_read: seg, write_plan: vec![], verify_version: verify, flush: 0, label: format!("ver{v}-pos{pos}-spare{spare}-verify{verify}-seg{seg}") };
                             let o = run_read_case(which, &case);
                             let (mut expect, _) = expected_results(&stream, compressed);
                             if verify && v != 9 {
                                 expect[pos] = ReadResult::IncompatibleVersion(v);
+                            } else if !matches!(&expect[pos], ReadResult::Packet(d) if d.contains(&format!("insimver: {v},")) || d.contains(&format!("insimver: {v} "))) {
+                                // the delivered packet must report the version the frame carries (the expectation above
+                                // comes from the library's own decoder, so it is checked against the frame here)
+                                p.violation(
+                                    "C09/version-field-misread",
+                                    format!("a VER frame carrying InSimVer {v} (spare byte {spare}) decodes to {}", short(&expect[pos])),
+                                    json!({"version": v, "spare": spare, "frame": hex(&ver_frame_spare(compressed, 1, v, spare))}),
+                                );
                             }
                             if o.results != expect || o.runaway {
                                 let at = o.results.iter().zip(expect.iter()).position(|(a, b)| a != b).unwrap_or(o.results.len().min(expect.len()));
@@ -80,7 +93,7 @@ pub fn run(ctx: &mut Ctx) -> (&'static str, String, bool) {
                                         o.results.get(at).map(short).unwrap_or_else(|| "<none>".into()),
                                         expect.get(at).map(short).unwrap_or_else(|| "<none>".into())
                                     ),
-                                    json!({"impl": which.name(), "mode": mode_name(compressed), "verify": verify, "version": v, "position": pos, "stream": hex(&stream)}),
+                                    json!({"impl": which.name(), "mode": mode_name(compressed), "verify": verify, "version": v, "position": pos, "spare": spare, "stream": hex(&stream)}),
                                 );
                             }
                         }
@@ -254,7 +267,7 @@ pub fn run(ctx: &mut Ctx) -> (&'static str, String, bool) {
     ctx.assume("VER frames are built by hand from the fixed 20-byte layout (InSimVer at offset 18)");
     (
         "exploration",
-        "all 256 InSimVer values x {verification on, off} x {blocking, tokio} x position {first, middle, last} x 3 read segmentations x both modes (exhaustive); every non-VER kind (incl. ISI with its own version byte != 9) around a valid VER in both settings; connections made through Builder::connect_blocking / connect_async over loopback TCP and UDP for verify_version {unset, on, off} x tcp_nodelay {unset, on, off} x both modes, the peer sending VER 8 / 9 / 10 between other packets; distinct = distinct configurations".into(),
+        "all 256 InSimVer values x {verification on, off} x {blocking, tokio} x position {first, middle, last} (spare byte 0, and 1 / 9 / 255) x 3 read segmentations x both modes (exhaustive); every non-VER kind (incl. ISI with its own version byte != 9) around a valid VER in both settings; connections made through Builder::connect_blocking / connect_async over loopback TCP and UDP for verify_version {unset, on, off} x tcp_nodelay {unset, on, off} x both modes, the peer sending VER 8 / 9 / 10 between other packets; distinct = distinct configurations".into(),
         true,
     )
 }
